@@ -393,7 +393,19 @@ func (e *ddEngine) evalInstr(s *ddState, in ssa.Instruction, prev *ssa.BasicBloc
 		s.vals[x] = aval{k: kSym, sym: x}
 	case *ssa.Extract:
 		s.vals[x] = aval{k: kSym, sym: x}
-	case *ssa.Lookup, *ssa.Index:
+	case *ssa.Lookup:
+		a, i := e.value(s, x.X), e.value(s, x.Index)
+		if a.k == kStr && i.k == kInt && i.i >= 0 && int(i.i) < len(a.s) {
+			s.vals[x] = aval{k: kInt, i: int64(a.s[i.i])}
+			return
+		}
+		s.vals[v] = aval{k: kSym, sym: v}
+	case *ssa.Index:
+		a, i := e.value(s, x.X), e.value(s, x.Index)
+		if a.k == kStr && i.k == kInt && i.i >= 0 && int(i.i) < len(a.s) {
+			s.vals[x] = aval{k: kInt, i: int64(a.s[i.i])}
+			return
+		}
 		s.vals[v] = aval{k: kSym, sym: v}
 	default:
 		// leave unevaluated (value() falls back to sym)
